@@ -1,2 +1,58 @@
-(* C13 — reachability, reversal, subgraph extraction and clone (graph.py DiGraph). *)
-From PMC Require Import Spec.Lemmas.
+(* C13 — reachability, reversal, subgraph extraction and clone are exact and
+   non-destructive (graph.py, class DiGraph).  Theorems only; proofs are in
+   Proofs/GraphP.v.  The model functions are pure (they return new values), which is the
+   model-level form of "none of these change G"; absence of aliasing in the Python
+   objects is monitored by the correspondence check. *)
+From PMC Require Import Spec.Lemmas Proofs.GraphP.
+
+(* get_reachable_set_from(X) = X plus everything reachable from X; foreign start node -> RuntimeError *)
+Theorem C13_reach : forall g X, wf_graph g -> incl X (nodes g) ->
+  reach_r g X = Ok (reach g X) /\ NoDup (reach g X) /\
+  forall y, In y (reach g X) <-> exists x, In x X /\ reaches g x y.
+Proof. intros g X Hg HX. split; [exact (reach_r_ok g X HX) | exact (reach_exact g X Hg HX)]. Qed.
+Print Assumptions C13_reach.
+
+Theorem C13_reach_foreign : forall g X x, In x X -> ~ In x (nodes g) -> reach_r g X = RuntimeErr.
+Proof. exact reach_r_err. Qed.
+Print Assumptions C13_reach_foreign.
+
+(* get_reversed_graph(): same nodes, exactly the flipped edges; twice = the original *)
+Theorem C13_reversed : forall g, wf_graph g ->
+  wf_graph (reversed g) /\
+  (forall x, In x (nodes (reversed g)) <-> In x (nodes g)) /\
+  (forall x y, edge (reversed g) x y <-> edge g y x).
+Proof. exact reversed_spec. Qed.
+Print Assumptions C13_reversed.
+
+Theorem C13_reversed_twice : forall g, wf_graph g ->
+  (forall x, In x (nodes (reversed (reversed g))) <-> In x (nodes g)) /\
+  (forall x y, edge (reversed (reversed g)) x y <-> edge g x y).
+Proof. exact reversed_involutive. Qed.
+Print Assumptions C13_reversed_twice.
+
+(* get_subgraph(X): nodes X ∩ V, exactly the edges with both ends in X *)
+Theorem C13_subgraph : forall g X, wf_graph g ->
+  wf_graph (subgraph g X) /\
+  (forall x, In x (nodes (subgraph g X)) <-> In x X /\ In x (nodes g)) /\
+  (forall x y, edge (subgraph g X) x y <-> edge g x y /\ In x X /\ In y X).
+Proof. exact subgraph_spec. Qed.
+Print Assumptions C13_subgraph.
+
+(* clone() is equal *)
+Theorem C13_clone : forall g, clone g = g.
+Proof. exact clone_id. Qed.
+Print Assumptions C13_clone.
+
+(* DiGraph(V, E) builds a well-formed graph with exactly these nodes and edges *)
+Theorem C13_mk_graph : forall V E, wf_graph (mk_graph V E) /\
+  (forall x, In x (nodes (mk_graph V E)) <-> In x V \/ exists y, In (x, y) E \/ In (y, x) E) /\
+  (forall x y, edge (mk_graph V E) x y <-> In (x, y) E).
+Proof. exact mk_graph_spec. Qed.
+Print Assumptions C13_mk_graph.
+
+(* non-vacuity: a concrete well-formed graph, a non-trivial reachable set *)
+Example C13_example :
+  let g := mk_graph [0; 1; 2; 3] [(0, 1); (1, 2); (2, 1); (3, 0)] in
+  reach_r g [1] = Ok [1; 2] /\ edges (reversed g) = [(0, 3); (1, 0); (1, 2); (2, 1)] /\
+  subgraph g [0; 1; 3] = [(0, [1]); (1, []); (3, [0])].
+Proof. vm_compute. repeat split. Qed.
